@@ -249,9 +249,13 @@ fn resolve_import(current_file: &str, specifier: &str) -> Option<String> {
 
 #[cfg(beff_verif)]
 fn read_file_content(file_name: &str) -> Option<String> {
+    // like ts-node/bundler.ts: the file-read callbacks (= what the watch loop watches) fire for successful reads only
     verif::with_host(|h| {
-        h.reads.push(file_name.to_string());
-        h.disk.get(file_name).cloned()
+        let content = h.disk.get(file_name).cloned();
+        if content.is_some() {
+            h.reads.push(file_name.to_string());
+        }
+        content
     })
 }
 
